@@ -206,70 +206,84 @@ theorem setArcsLoop_eq (size : Nat) (out : Bytes) (arcs : List Nat) (h32 : Arcs3
 
 /-! ### get_single_arc -/
 
-theorem subidVal_mod (acc : Nat) (bs : Bytes) :
-    subidVal acc bs % 4294967296 = subidVal (acc % 4294967296) bs % 4294967296 := by
+theorem arcMax_eq : arcMax = 4294967295 := rfl
+
+/-- reading further octets never lowers the value -/
+theorem subidVal_ge (acc : Nat) (bs : Bytes) : acc ≤ subidVal acc bs := by
   induction bs generalizing acc with
   | nil => simp [subidVal]
   | cons b bs ih =>
     simp only [subidVal]
-    rw [ih (acc * 128 + b % 128), ih (acc % 4294967296 * 128 + b % 128)]
-    congr 2
+    have := ih (acc * 128 + b % 128)
     omega
 
-theorem subidVal_congr (a a' : Nat) (bs : Bytes) (h : a % 4294967296 = a' % 4294967296) :
-    subidVal a bs % 4294967296 = subidVal a' bs % 4294967296 := by
-  rw [subidVal_mod a, subidVal_mod a', h]
-
-theorem arcMax_eq : arcMax = 4294967295 := rfl
-
+/-- the loop on a complete sub-identifier: the value if it fits 32 bits, ERANGE otherwise — whatever
+    the accumulator holds on entry, whatever follows the sub-identifier -/
 theorem getSingleLoop_subid (accum pos : Nat) (bs rest : Bytes) (h : IsSubid bs) :
     getSingleLoop accum pos (bs ++ rest) =
-      .ok (subidVal accum bs % 4294967296) (pos + bs.length) := by
+      if subidVal accum bs < 4294967296 then .ok (subidVal accum bs) (pos + bs.length) else .erange := by
   induction bs generalizing accum pos with
   | nil => simp [IsSubid] at h
   | cons b bs ih =>
+    have hm := arcMax_eq
     cases bs with
     | nil =>
       have hb : b < 128 := by simpa [IsSubid] using h
+      have hsv : subidVal accum [b] = accum * 128 + b % 128 := rfl
       rw [List.cons_append, List.nil_append, getSingleLoop]
-      simp only [subidVal, List.length_cons, List.length_nil]
-      rw [if_pos (by omega), if_pos (by rw [arcMax_eq]; omega)]
-      congr 1
-      omega
+      by_cases hov : accum > arcMax / 128
+      · rw [if_pos hov, if_neg (by omega)]
+      · rw [if_neg hov, if_pos (by omega), if_pos (by omega), hsv]
+        simp only [List.length_cons, List.length_nil]
+        congr 1
+        omega
     | cons b' bs' =>
       simp only [IsSubid] at h
+      have hsv : subidVal accum (b :: b' :: bs') = subidVal (accum * 128 + b % 128) (b' :: bs') := rfl
+      have hge := subidVal_ge (accum * 128 + b % 128) (b' :: bs')
       rw [List.cons_append, getSingleLoop]
-      rw [if_neg (by omega)]
-      rw [ih (accum * 128 % 4294967296 + b % 128) (pos + 1) h.2.2]
-      simp only [List.length_cons]
-      congr 1
-      · conv => rhs; rw [subidVal]
-        apply subidVal_congr
-        omega
-      · omega
+      by_cases hov : accum > arcMax / 128
+      · rw [if_pos hov, if_neg (by omega)]
+      · rw [if_neg hov, if_neg (by omega)]
+        rw [ih (accum * 128 % 4294967296 + b % 128) (pos + 1) h.2.2]
+        have e : accum * 128 % 4294967296 + b % 128 = accum * 128 + b % 128 := by omega
+        rw [e, hsv]
+        simp only [List.length_cons]
+        have e2 : pos + 1 + (bs'.length + 1) = pos + (bs'.length + 1 + 1) := by omega
+        rw [e2]
 
-theorem getSingleLoop_ne_erange (accum pos : Nat) (bs : Bytes) :
-    getSingleLoop accum pos bs ≠ .erange := by
-  induction bs generalizing accum pos with
-  | nil => simp [getSingleLoop]
-  | cons b bs ih =>
-    rw [getSingleLoop]
-    split
-    · rw [if_pos (by rw [arcMax_eq]; omega)]; simp
-    · exact ih _ _
-
+/-- the loop on octets that all have bit 8 set (the buffer ends inside a sub-identifier): EINVAL,
+    unless the part read so far already exceeds 32 bits -/
 theorem getSingleLoop_allHi (accum pos : Nat) (bs : Bytes) (h : AllHi bs) :
-    getSingleLoop accum pos bs = .einval := by
+    getSingleLoop accum pos bs = .einval ∨ getSingleLoop accum pos bs = .erange := by
+  induction bs generalizing accum pos with
+  | nil => left; rfl
+  | cons b bs ih =>
+    rw [allHi_cons] at h
+    simp only [getSingleLoop]
+    split
+    · right; rfl
+    · rw [if_neg (by omega)]
+      exact ih _ _ h.2
+
+theorem getSingleLoop_allHi_small (accum pos : Nat) (bs : Bytes) (h : AllHi bs)
+    (hv : subidVal accum bs < 4294967296) : getSingleLoop accum pos bs = .einval := by
   induction bs generalizing accum pos with
   | nil => rfl
   | cons b bs ih =>
     rw [allHi_cons] at h
     simp only [getSingleLoop]
-    rw [if_neg (by omega)]
-    exact ih _ _ h.2
+    rw [subidVal] at hv
+    have hm := arcMax_eq
+    have := subidVal_ge (accum * 128 + b % 128) bs
+    rw [if_neg (by omega), if_neg (by omega)]
+    have e : accum * 128 % 4294967296 + b % 128 = accum * 128 + b % 128 := by omega
+    rw [e]
+    exact ih _ _ h.2 hv
 
 theorem getSingleArc_subid (bs rest : Bytes) (h : IsSubid bs) :
-    getSingleArc (bs ++ rest) = .ok (subidVal 0 bs % 4294967296) bs.length := by
+    getSingleArc (bs ++ rest) =
+      if subidVal 0 bs < 4294967296 then .ok (subidVal 0 bs) bs.length else .erange := by
   unfold getSingleArc
   have hne : bs ++ rest ≠ [] := by
     have := isSubid_ne_nil bs h
@@ -279,7 +293,24 @@ theorem getSingleArc_subid (bs rest : Bytes) (h : IsSubid bs) :
 
 theorem getSingleArc_base128 (n : Nat) (rest : Bytes) (h : n < 4294967296) :
     getSingleArc (base128 n ++ rest) = .ok n (base128 n).length := by
-  rw [getSingleArc_subid _ _ (base128_isSubid n), subidVal_base128, Nat.mod_eq_of_lt h]
+  rw [getSingleArc_subid _ _ (base128_isSubid n), subidVal_base128, if_pos h]
+
+/-- an octet string either starts with a complete sub-identifier or has bit 8 set everywhere -/
+theorem subid_prefix_or_allHi (bs : Bytes) (hwf : Bytes.wf bs) :
+    (∃ sub rest, bs = sub ++ rest ∧ IsSubid sub) ∨ AllHi bs := by
+  induction bs with
+  | nil => right; exact allHi_nil
+  | cons b bs ih =>
+    have hb : b < 256 := hwf b (by simp)
+    have hwf' : Bytes.wf bs := fun x hx => hwf x (List.mem_cons_of_mem _ hx)
+    by_cases hlt : b < 128
+    · left; exact ⟨[b], bs, rfl, isSubid_single hlt⟩
+    · rcases ih hwf' with ⟨sub, rest, e, hs⟩ | hall
+      · left
+        refine ⟨b :: sub, rest, by rw [e]; rfl, ?_⟩
+        have := isSubid_hi_append [b] sub (allHi_cons.mpr ⟨⟨by omega, hb⟩, allHi_nil⟩) hs
+        simpa using this
+      · right; exact allHi_cons.mpr ⟨⟨by omega, hb⟩, hall⟩
 
 theorem allHi_replicate (k : Nat) : AllHi (List.replicate k 128) := by
   intro b hb
@@ -329,6 +360,53 @@ theorem getArcsLoop_flatMap (fuel : Nat) (arcs : List Nat) (h32 : Arcs32 arcs)
       rw [getSingleArc_base128 a _ (arcs32_head h32)]
       simp only [List.drop_left]
       rw [ih f (arcs32_tail h32) (by omega)]
+
+/-- every sub-identifier of the list denotes a 32-bit value -/
+def allFit (subs : List Bytes) : Bool := subs.all (fun s => decide (subidVal 0 s < 4294967296))
+
+theorem allFit_cons (s : Bytes) (subs : List Bytes) :
+    allFit (s :: subs) = (decide (subidVal 0 s < 4294967296) && allFit subs) := by
+  simp [allFit]
+
+theorem length_le_flatten_subids (subs : List Bytes) (h : ∀ s ∈ subs, IsSubid s) :
+    subs.length ≤ subs.flatten.length := by
+  induction subs with
+  | nil => simp
+  | cons s rest ih =>
+    have hs := isSubid_ne_nil s (h s (by simp))
+    have : 0 < s.length := List.length_pos_iff.mpr hs
+    have := ih (fun x hx => h x (List.mem_cons_of_mem _ hx))
+    simp only [List.flatten_cons, List.length_append, List.length_cons]; omega
+
+/-- the arc loop of `*_get_arcs` on any series of complete sub-identifiers (minimal or not): all the
+    values if every one fits 32 bits, ERANGE otherwise -/
+theorem getArcsLoop_subids (fuel : Nat) (subs : List Bytes) (h : ∀ s ∈ subs, IsSubid s)
+    (hf : subs.length + 1 ≤ fuel) :
+    getArcsLoop fuel subs.flatten =
+      if allFit subs = true then .ok (subs.map (subidVal 0)) else .erange := by
+  induction subs generalizing fuel with
+  | nil =>
+    cases fuel with
+    | zero => omega
+    | succ f => simp [getArcsLoop, getSingleArc, allFit]
+  | cons s rest ih =>
+    cases fuel with
+    | zero => omega
+    | succ f =>
+      simp only [List.length_cons] at hf
+      have hs := h s (by simp)
+      have hrest : ∀ x ∈ rest, IsSubid x := fun x hx => h x (List.mem_cons_of_mem _ hx)
+      simp only [List.flatten_cons, getArcsLoop]
+      rw [getSingleArc_subid s _ hs, allFit_cons]
+      by_cases hv : subidVal 0 s < 4294967296
+      · rw [if_pos hv]
+        simp only [List.drop_left]
+        rw [ih f hrest (by omega)]
+        by_cases ha : allFit rest = true
+        · simp [hv, ha]
+        · simp [ha]
+      · rw [if_neg hv]
+        simp [hv]
 
 end Asn1c.Proofs.Oid
 
